@@ -44,6 +44,12 @@ claimed.update({
    text=("Apalache (SMT-based symbolic model checker) on type-annotated copies of the five shipped .tla files regenerated from the working tree at every run. Basic dBFT 2.0 and anti-MEV models: an inductive invariant is proved (Init => IndInv, IndInv /\\ Next => IndInv', IndInv => TypeOK /\\ InvTwoBlocksAccepted /\\ InvFaultNodesCount) for four validators, MaxView 2 and EVERY placement of <= 1 faulty/dead node (fault sets are solver variables): the stated invariants hold in every reachable state, no depth bound. Multipool, dBFT 2.1 three-staged and centralized CV models: bounded symbolic runs from Init (length 4 quick / 8 thorough) only. An alarm (counterexample to induction or bounded violation) is confirmed by a concrete behaviour from Init (bounded Apalache run, then TLC on the unmodified spec) before it is reported."),
    design_ref="DESIGN.md §6 C20", technique="Apalache: SMT-based inductive-invariant checking and bounded symbolic execution of the TLA+ specs; TLC only replays alarms",
    note="Trusted: Apalache 0.58 + z3, the mechanical type annotation, the hand-written inductive invariants in tla/MC_*.tla.in (they only strengthen what is proved; a wrong one fails Q1/Q2, it cannot make a false claim pass Q3)."),
+ "C09": dict(category="model_checking",
+   text=("PARTIAL by design: the network-level statement (every live validator decides after silence/partition/restart) is a whole-network liveness property over virtual time and is NOT decided. Solver-decided on the real code, one symbolic step from every Inv state (N=4): the timeout ladder (a current-epoch timeout on an undecided validator always acts and re-arms; committed nodes resend and never ask for a view change; ChangeView only while <= F validators are committed-or-lost, RecoveryRequest otherwise), the responder selection (exactly the committed nodes and the F+1 validators after the sender answer, watch-only never), and distinct primaries over n consecutive views for every n (with C06). These are the necessary per-node ingredients; each catches a class of regressions."),
+   design_ref="DESIGN.md §6 C09", technique=STEP_TECH, note=STEP_NOTE + " Emergent liveness of the network is outside the claim."),
+ "C16": dict(category="model_checking",
+   text=("PARTIAL by design: the fault-free-network statement about proposal spacing is not decided (whole-network runs in virtual time). Solver-decided on the real OnTimeout/OnNewTransaction from every Inv state at view 0 with symbolic TimePerBlock <= MaxTimePerBlock: idle primary defers an empty proposal (subscribe once, re-arm max-min), proposes on the next expiry or on a new-transaction notification in that call; idle backup does not ask for a view change (subscribe, re-arm 2max-2min >= 0), a notification re-arms 2*min without ChangeView; notification without subscription changes nothing; with the extension not configured no path subscribes (a call of the nil callback would be a panic = violation)."),
+   design_ref="DESIGN.md §6 C16", technique=STEP_TECH, note=STEP_NOTE + " Network-level spacing is outside the claim."),
 })
 
 na = {
